@@ -374,8 +374,10 @@ func load(ctx context.Context, wd string, env []string, tags string, patterns []
 		BuildFlags: []string{"-tags=wireinject"},
 		// TODO(light): Use ParseFile to skip function bodies and comments in indirect packages.
 	}
-	if len(tags) > 0 {
-		cfg.BuildFlags[0] += " " + tags
+	// The user's tags may be separated by commas (as the usage text says) or
+	// by spaces; the go command wants one style per list.
+	for _, tag := range strings.FieldsFunc(tags, func(r rune) bool { return r == ',' || r == ' ' }) {
+		cfg.BuildFlags[0] += "," + tag
 	}
 	escaped := make([]string, len(patterns))
 	for i := range patterns {
